@@ -42,3 +42,14 @@ Example C04_example :
   let p := fold_left (fun q o => fst (sstep c (KSmall 2) q o)) [SCtorRange 0 [3; 1; 2]%Z; SEraseKey 0 1%Z; SEraseKey 0 2%Z; SEraseKey 0 3%Z; SInsert 0 9%Z] sinit in
   option_map (sdescribe (KSmall 2)) (sget p 0) = Some (1, 1, [9%Z]).
 Proof. reflexivity. Qed.
+
+(* Insertion of the model is the code's: [ss_insert] - in the inline state, at the transition to the large state at exactly N
+   elements, and in the large state - is proved equal (SsetTV.v) to Gen/SsetGen.v, regenerated on every run by
+   translator/sset2coq.py from clang's AST of SmallSet<int, 3>::insert(const T&) / insert_small / insert_set / isSmall /
+   isSmallContFull (the inline capacity stays the symbolic N; find_if with the equivalence functor, grow() and the backing
+   set's insert are primitives specified in SsetPrims.v). *)
+From Amc Require SsetPrims SsetTV.
+From Amc.Gen Require SsetGen.
+Theorem C04_insert_is_the_regenerated_one :
+  forall cmp N s v, SsetGen.insert_gen cmp (Z.of_nat N) (svec s) (sset_ s) v = SsetTV.out (ss_insert cmp N s v).
+Proof. exact SsetTV.insert_tv. Qed.
